@@ -56,25 +56,26 @@ Section UReader.
   Lemma u_matrix_column_nil : exists k, u_matrix_column A parse_f32 [] = PErr k.
   Proof. eexists. reflexivity. Qed.
 
-  Lemma u_columns_spec : forall fuel buf s acc, wf_stream s -> Forall colP acc ->
+  Lemma u_columns_spec : forall F fuel buf s acc, wf_stream s -> Forall colP acc ->
+    slen s < F ->
     slen s + (if is_nil buf then 0 else 1) < fuel ->
-    match u_columns A parse_f32 fuel buf false s acc with
+    match u_columns A parse_f32 F fuel buf false s acc with
     | CDone cols _ _ s' => wf_stream s' /\ Forall colP cols /\
                            slen s' + length cols <= slen s + length acc + (if is_nil buf then 0 else 1)
     | CErr _ s' => wf_stream s' /\ slen s' <= slen s
     | CPanic _ | CFuel => False
     end.
   Proof.
-    induction fuel as [|fuel IH]; intros buf s acc H Hacc Hf; [lia|].
+    intros F0. induction fuel as [|fuel IH]; intros buf s acc H Hacc HF Hf; [lia|].
     cbn [u_columns].
-    pose proof (u_fill_spec (fill_fuel s) buf s H ltac:(unfold fill_fuel, stream_bytes, slen; lia)) as F.
-    destruct (u_fill (fill_fuel s) buf s) as [b s'|b s'|b s'|]; try contradiction.
+    pose proof (u_fill_spec F0 buf s H HF) as F.
+    destruct (u_fill F0 buf s) as [b s'|b s'|b s'|]; try contradiction.
     - destruct F as [W L].
       pose proof (pspec_u_matrix_column A HA parse_f32 b) as P.
       destruct (u_matrix_column A parse_f32 b) as [rest n col| | | |]; try contradiction.
       + destruct P as [pre [_ [_ q]]].
-        specialize (IH [] s' (col :: acc) W (@Forall_cons _ colP col acc q Hacc) ltac:(cbn [is_nil]; lia)).
-        destruct (u_columns A parse_f32 fuel [] false s' (col :: acc)); try contradiction.
+        specialize (IH [] s' (col :: acc) W (@Forall_cons _ colP col acc q Hacc) ltac:(lia) ltac:(cbn [is_nil]; lia)).
+        destruct (u_columns A parse_f32 F0 fuel [] false s' (col :: acc)); try contradiction.
         * destruct IH as [W2 [F2 L2]]. cbn [is_nil length] in L2.
           repeat split; [exact W2|exact F2|]. destruct (is_nil buf); lia.
         * destruct IH as [W2 L2]. split; [exact W2|lia].
@@ -89,8 +90,8 @@ Section UReader.
           - subst b. destruct buf; [|auto]. destruct u_matrix_column_nil as [k Ek]. rewrite Ek in EP. discriminate.
           - subst b. destruct u_matrix_column_nil as [k Ek]. rewrite Ek in EP. discriminate. }
         rewrite Nb in Hf.
-        specialize (IH [] s' (col :: acc) W (@Forall_cons _ colP col acc q Hacc) ltac:(cbn [is_nil]; lia)).
-        destruct (u_columns A parse_f32 fuel [] false s' (col :: acc)); try contradiction.
+        specialize (IH [] s' (col :: acc) W (@Forall_cons _ colP col acc q Hacc) ltac:(lia) ltac:(cbn [is_nil]; lia)).
+        destruct (u_columns A parse_f32 F0 fuel [] false s' (col :: acc)); try contradiction.
         * destruct IH as [W2 [F2 L2]]. cbn [is_nil length] in L2.
           repeat split; [exact W2|exact F2|]. rewrite Nb. lia.
         * destruct IH as [W2 L2]. split; [exact W2|lia].
@@ -107,33 +108,32 @@ Section UReader.
                                                | Err e => Err e | Panic k => Panic k | OutOfFuel => OutOfFuel end).
   Proof. intros m. unfold freq_new. destruct (forallb row_ok m); exact I. Qed.
 
-  Lemma u_next_total : forall st, uinv st ->
-    uinv (fst (u_next A parse_f32 false st)) /\
-    ok_outcome (snd (u_next A parse_f32 false st)) /\
-    umu (fst (u_next A parse_f32 false st)) <= umu st /\
-    (forall r, snd (u_next A parse_f32 false st) = Ok (Some r) ->
-               umu (fst (u_next A parse_f32 false st)) < umu st).
+  Lemma u_next_total : forall F st, uinv st -> umu st < F ->
+    uinv (fst (u_next A parse_f32 F false st)) /\
+    ok_outcome (snd (u_next A parse_f32 F false st)) /\
+    umu (fst (u_next A parse_f32 F false st)) <= umu st /\
+    (forall r, snd (u_next A parse_f32 F false st) = Ok (Some r) ->
+               umu (fst (u_next A parse_f32 F false st)) < umu st).
   Proof.
-    intros [buf line s] H. unfold uinv, umu in *. cbn [ustream ubuf uline] in *.
+    intros F0 [buf line s] H HF. unfold uinv, umu in *. cbn [ustream ubuf uline] in *.
     unfold u_next. cbn [ustream ubuf uline].
-    assert (match (if line then FLine buf s else u_fill (fill_fuel s) buf s) with
+    assert (match (if line then FLine buf s else u_fill F0 buf s) with
             | FLine _ s' => wf_stream s' /\ slen s' <= slen s
             | FEof _ s' => wf_stream s' /\ slen s' <= slen s
             | FErr _ s' => wf_stream s' /\ slen s' <= slen s
             | FFuel => False end) as F.
     { destruct line; [split; [exact H|lia]|].
-      pose proof (u_fill_spec (fill_fuel s) buf s H ltac:(unfold fill_fuel, stream_bytes, slen; lia)) as F.
-      destruct (u_fill (fill_fuel s) buf s); try contradiction; destruct F as [W L]; try (split; [exact W|lia]).
+      pose proof (u_fill_spec F0 buf s H HF) as F.
+      destruct (u_fill F0 buf s); try contradiction; destruct F as [W L]; try (split; [exact W|lia]).
       }
-    destruct (if line then FLine buf s else u_fill (fill_fuel s) buf s) as [b s1|b s1|b s1|]; try contradiction;
+    destruct (if line then FLine buf s else u_fill F0 buf s) as [b s1|b s1|b s1|]; try contradiction;
       destruct F as [W1 L1].
     2,3: cbn [fst snd ustream]; repeat split; try exact I; try exact W1; try lia; intros r C; discriminate.
     pose proof (pgood_u_id b) as PI.
     destruct (u_id b) as [rest n id| | | |]; try contradiction.
     2,3: cbn [fst snd ustream]; repeat split; try exact I; try exact W1; try lia; intros r C; discriminate.
-    pose proof (u_columns_spec (cols_fuel s1) [] s1 [] W1 (Forall_nil _)
-                  ltac:(unfold cols_fuel, stream_bytes, slen; cbn [is_nil]; lia)) as C.
-    destruct (u_columns A parse_f32 (cols_fuel s1) [] false s1 []) as [cols b' line' s2|b' s2|k|]; try contradiction.
+    pose proof (u_columns_spec F0 F0 [] s1 [] W1 (Forall_nil _) ltac:(lia) ltac:(cbn [is_nil]; lia)) as C.
+    destruct (u_columns A parse_f32 F0 F0 [] false s1 []) as [cols b' line' s2|b' s2|k|]; try contradiction.
     2: { destruct C as [W2 L2]. cbn [fst snd ustream]. repeat split; try exact I; try exact W2; try lia.
          intros r C2; discriminate. }
     destruct C as [W2 [F2 L2]]. cbn [is_nil length] in L2.
@@ -147,43 +147,44 @@ Section UReader.
       repeat split; try exact I; try exact W2; try lia; intros r C2; try discriminate; lia.
   Qed.
 
-  Lemma u_run_total : forall fuel st, uinv st -> umu st < fuel ->
-    Holds_c15 (u_run A parse_f32 false fuel true st).
+  Lemma u_run_total : forall F fuel st, uinv st -> umu st < F -> umu st < fuel ->
+    Holds_c15 (u_run A parse_f32 F false fuel true st).
   Proof.
-    induction fuel as [|fuel IH]; intros st Hi Hm; [lia|].
-    cbn [u_run]. pose proof (u_next_total st Hi) as [I2 [O2 [M2 M3]]].
-    destruct (u_next A parse_f32 false st) as [st' o]. cbn [fst snd] in *.
+    intros F. induction fuel as [|fuel IH]; intros st Hi HF Hm; [lia|].
+    cbn [u_run]. pose proof (u_next_total F st Hi HF) as [I2 [O2 [M2 M3]]].
+    destruct (u_next A parse_f32 F false st) as [st' o]. cbn [fst snd] in *.
     destruct o as [[r|]|e|s|]; try contradiction.
     - specialize (M3 r eq_refl).
-      destruct (IH st' I2 ltac:(lia)) as [rs [o' [E Ho]]].
+      destruct (IH st' I2 ltac:(lia) ltac:(lia)) as [rs [o' [E Ho]]].
       exists (r :: rs), o'. split; [cbn; rewrite E; reflexivity|exact Ho].
     - exists [], (Ok None). split; [reflexivity|left; reflexivity].
     - exists [], (Err e). split; [reflexivity|right; eauto].
   Qed.
 
-  Lemma u_run_no_panic : forall fuel stop st, uinv st ->
-    Forall ok_outcome (firstn fuel (u_run A parse_f32 false (S fuel) stop st)).
+  Lemma u_run_no_panic : forall F fuel stop st, uinv st -> umu st < F ->
+    Forall ok_outcome (firstn fuel (u_run A parse_f32 F false (S fuel) stop st)).
   Proof.
-    induction fuel as [|fuel IH]; intros stop st Hi; [constructor|].
-    cbn [u_run]. pose proof (u_next_total st Hi) as [I2 [O2 _]].
-    destruct (u_next A parse_f32 false st) as [st' o]. cbn [fst snd] in *.
+    intros F. induction fuel as [|fuel IH]; intros stop st Hi HF; [constructor|].
+    cbn [u_run]. pose proof (u_next_total F st Hi HF) as [I2 [O2 [M2 _]]].
+    destruct (u_next A parse_f32 F false st) as [st' o]. cbn [fst snd] in *.
     destruct o as [[r|]|e|s|]; try contradiction.
-    - cbn [firstn]. constructor; [exact I|]. apply IH. exact I2.
+    - cbn [firstn]. constructor; [exact I|]. apply IH; [exact I2|lia].
     - cbn [firstn]. constructor; [exact I|]. destruct fuel; constructor.
     - destruct stop.
       + cbn [firstn]. constructor; [exact I|]. destruct fuel; constructor.
-      + cbn [firstn]. constructor; [exact I|]. apply IH. exact I2.
+      + cbn [firstn]. constructor; [exact I|]. apply IH; [exact I2|lia].
   Qed.
 
   Theorem uniprobe_read_total : forall s, wf_stream s -> Holds_c15 (uniprobe_read A parse_f32 s).
   Proof.
-    intros s H. unfold uniprobe_read. apply u_run_total; [exact H|].
-    unfold umu, u_new, slen, stream_bytes. cbn [ustream]. lia.
+    intros s H. unfold uniprobe_read. apply u_run_total; [exact H| |];
+      unfold umu, u_new, slen, read_fuel, stream_bytes; cbn [ustream]; lia.
   Qed.
 
   Theorem uniprobe_calls_no_panic : forall calls s, wf_stream s ->
     Forall ok_outcome (uniprobe_calls A parse_f32 false calls s).
   Proof.
-    intros calls s H. unfold uniprobe_calls. apply u_run_no_panic. exact H.
+    intros calls s H. unfold uniprobe_calls. apply u_run_no_panic; [exact H|].
+    unfold umu, u_new, slen, read_fuel, stream_bytes; cbn [ustream]; lia.
   Qed.
 End UReader.
